@@ -68,8 +68,11 @@ func main() {
 		case "pipeline":
 			e.Property = "C07"
 			e.Run = runPipeline
+		case "detmarshal":
+			e.Property = "C05"
+			e.Run = runDetMarshal
 		default:
-			return fmt.Errorf("param scenario=readers|pipeline required")
+			return fmt.Errorf("param scenario=readers|pipeline|detmarshal required")
 		}
 		return nil
 	}
